@@ -81,6 +81,11 @@ CHECKS = {
    text="Theorems: a validated word has the architecture's width, carries the number of one of the processor's opcodes and the simulator's disassembler cannot fail on it; a validated processor has a duplicate-free opcode list, fixed-width ROM within 2^O; the assembler's sizing (needed_bits, R/N/M/O inference) fits every register, port and address of the program it was derived from (with C05's model of creatorbm.go); bond graphs built by edit operations are well formed (C10). Per run: machines from basm (corpus, with and without the chooser, generated C05 sources), neuralbond->basm in both modes, bmqsim->basm, bondgo single and multi processor are loaded through Bondmachine_json.Dejsoner and validated; four sources that cannot fit (literal wider than the registers via rset and via mov, undefined label, romsize too small) must be rejected. Level: translation validation of each emitted machine plus proof about the validator and the sizing.",
    design_ref="DESIGN.md section 5, C16",
    note="Trusted: Coq kernel; Front/Wf.v validator; translators/layout.py (validated in C03); harness/c16.go."),
+ "C06": dict(
+   technique="Coq model of fragments, instances, links, the direct dataflow evaluation of the graph and of fragmentComposer (numbering of processor inputs/outputs/temporaries, glue moves, bodies in collapse order, temporaries renamed to the lowest free registers); the composed section of every processor of every partition is compared instruction by instruction with the assembler's program, and the settled outputs of the simulated machine with the direct evaluation, for all-on-one, one-each and random partitions",
+   text="Model Front/Frag.v; per run 14 (quick) / 150 random DAGs of 2-6 instances of random integer fragments, 3-5 partitions each (everything on one processor, one processor per instance, random ones with topologically ordered collapse lists), register sizes 8/16/32: (1) compose(g, collapse list) evaluated in Coq equals the disassembled program of that processor; (2) eval(g, inputs) evaluated in Coq and independently in the harness equals the outputs the simulated machine settles on within 500 ticks under constant inputs. Theorems about compose are being added (see DESIGN.md); the stabilisation argument across processors is not proved (partial).",
+   design_ref="DESIGN.md section 5, C06",
+   note="Trusted: Coq kernel; Front/Frag.v hand-written; Isa/Sim.v; asynchronous iomode only."),
 }
 NOT_APPLICABLE = []
 
